@@ -165,7 +165,7 @@ impl Check for C19 {
         "exploration"
     }
     fn rule(&self) -> String {
-        "EXHAUSTIVE enumeration of 27 property kinds x {publish, will, subscribe, unsubscribe, disconnect, publish built with correlate(), reply()/reply_owned() publication with caller properties} x value variants (legal, boundary, illegal) x session states {idle, in-flight work with withheld acks, handle dead after a broker DISCONNECT, send window used up, all eight in-flight slots used, handle dead after a keep-alive timeout, an earlier disconnect() given up before any byte went out} against a reference table written from the MQTT 5.0 text (Accept / Reject / DontCare): Reject => documented error (InvalidRequest also when the request could not have been admitted anyway) and no trace (no byte of the request written, snapshot incl. the identifier counter, handle statuses, quiescence and can_publish unchanged); Accept => the request succeeds with ample buffers and the property is decoded from the wire with the same value; plus empty SUBSCRIBE/UNSUBSCRIBE lists, sets of several legal properties on one request (repeated User Properties, one of every legal kind together) in each of the five base contexts, and Maximum QoS {absent,0,1} x requested {0,1,2} x auto-downgrade {on,off} x {idle, in-flight work, dead handle, resumed reconnect after a different Maximum QoS, fresh reconnect after a different Maximum QoS}: no PUBLISH above the maximum on the wire, returned handle kind (none / completed by PUBACK / completed by PUBCOMP) matches the QoS sent. Every cell is a distinct non-trivial case. Plus requests-after-random-histories (400 quick / 600 000 thorough): a generated history from one of five profiles, then a request in one of five contexts with one to three properties drawn from the same variants: an illegal one never returns Ok, nothing of it (marker topic / filter) ever reaches the wire, InvalidRequest leaves retained table, quota, PUBREL table and identifier counter unchanged; a legal one is never answered InvalidRequest and what reaches the wire carries exactly the requested properties.".into()
+        "EXHAUSTIVE enumeration of 27 property kinds x {publish, will, subscribe, unsubscribe, disconnect, publish built with correlate(), reply()/reply_owned() publication with caller properties} x value variants (legal, boundary, illegal) x session states {idle, in-flight work with withheld acks, handle dead after a broker DISCONNECT, send window used up, all eight in-flight slots used, handle dead after a keep-alive timeout, an earlier disconnect() given up before any byte went out (a request refused there also leaves retained table, quota, identifier counter and handle statuses as they were)} against a reference table written from the MQTT 5.0 text (Accept / Reject / DontCare): Reject => documented error (InvalidRequest also when the request could not have been admitted anyway) and no trace (no byte of the request written, snapshot incl. the identifier counter, handle statuses, quiescence and can_publish unchanged); Accept => the request succeeds with ample buffers and the property is decoded from the wire with the same value; plus empty SUBSCRIBE/UNSUBSCRIBE lists, sets of several legal properties on one request (repeated User Properties, one of every legal kind together) in each of the five base contexts, and Maximum QoS {absent,0,1} x requested {0,1,2} x auto-downgrade {on,off} x {idle, in-flight work, dead handle, resumed reconnect after a different Maximum QoS, fresh reconnect after a different Maximum QoS}: no PUBLISH above the maximum on the wire, returned handle kind (none / completed by PUBACK / completed by PUBCOMP) matches the QoS sent. Every cell is a distinct non-trivial case. Plus requests-after-random-histories (400 quick / 600 000 thorough): a generated history from one of five profiles, then a request in one of five contexts with one to three properties drawn from the same variants: an illegal one never returns Ok, nothing of it (marker topic / filter) ever reaches the wire, InvalidRequest leaves retained table, quota, PUBREL table and identifier counter unchanged; a legal one is never answered InvalidRequest and what reaches the wire carries exactly the requested properties.".into()
     }
     fn assumptions(&self) -> Vec<String> {
         vec!["the reference table (requests.rs::verdict, DESIGN.md appendix A) is a correct reading of MQTT 5.0".into(), "string content rules (wildcards in a response topic, U+0000) are invalid user input and not generated".into()]
